@@ -13,7 +13,7 @@ import z3
 from . import sym
 from .interp import Frame, Interp, RaiseEx, _Break, _Continue, _Return
 from .path import Obligation, Path, PathResult, explore
-from .values import (ExcVal, Infeasible, Obj, Opaque, PDict, PList, SArr, SBool, SInt, SMap, SName, SOpt, SReal,
+from .values import (GList, Poison, ExcVal, Infeasible, Obj, Opaque, PDict, PList, SArr, SBool, SInt, SMap, SName, SOpt, SReal,
                      SSeq, SSet, SpecFn, Unsupported, num_term, real_term)
 
 
@@ -226,16 +226,26 @@ class LoopSpec:
         target_names = [m.id for m in ast.walk(st.target) if isinstance(m, ast.Name)]
         mutated = self.havoc.get("__mutated__")
         # havoc
+        listspecs = {m: sp_ for m, sp_ in self.havoc.items() if isinstance(sp_, ListSpec)}
+        for m in listspecs:
+            ok0, cur0 = fr.lookup(m)
+            path.oblige(oid(f"{self.name} / init: {m} is the empty list"), z3.BoolVal(ok0 and isinstance(cur0, PList) and not cur0.items),
+                        kind="inv-init")
+        i_pre = sym.fresh("i_" + self.name, sym.I)
         for m in modified:
             if m in target_names:
                 continue
             ok, cur = fr.lookup(m)
+            if m in listspecs:
+                continue
             fr.assign(m, self.havoc_value(ip, m, cur))
         if mutated is not None:
             mutated(ip, fr)
         iterate = path.branch(sym.fresh("iterate_" + self.name, sym.B), f"{self.name}: check an arbitrary iteration")
         if iterate:
-            i = sym.fresh("i_" + self.name, sym.I)
+            i = i_pre
+            for m, ls in listspecs.items():
+                fr.assign(m, GList(SSeq(i, ls.spec_elem, "list", ls.tagname, tag=("listspec", ls.tagname)), []))
             path.assume(i >= 0)
             path.assume(i < n)
             ip.reg.loop_index(ip, i)
@@ -252,11 +262,36 @@ class LoopSpec:
                 return
             stn = LoopSpec.State(ip, fr, i + 1, n, S)
             goalsn = self._inv_terms(stn)
+            # lists built by append: exactly one element appended, and it is the specified element i
+            assigned_in_body = [m for m in self.assigned_names(st.body)] + target_names
+            for m, ls in listspecs.items():
+                ok_, gl = fr.lookup(m)
+                if not isinstance(gl, GList) or len(gl.appended) != 1:
+                    goalsn.append(z3.BoolVal(False))
+                    continue
+                # closures created in the body are called after the loop: locals the loop rebinds are then stale
+                saved = {}
+                for nm_ in assigned_in_body:
+                    if nm_ in fr.locals:
+                        saved[nm_] = fr.locals[nm_]
+                        fr.locals[nm_] = Poison(nm_)
+                try:
+                    from .interp import LateBound
+                    try:
+                        goalsn.extend(ls.equal(ip, gl.appended[0], i))
+                    except LateBound as lb_:
+                        path.oblige(oid(f"{self.name} / element of {m}: closure reads the loop-rebound variable '{lb_.name}' when called later"),
+                                    False, kind="inv-preserve")
+                finally:
+                    for nm_, v_ in saved.items():
+                        fr.locals[nm_] = v_
             ip.reg.saturate(ip)
             for j, g in enumerate(goalsn):
                 path.oblige(oid(f"{self.name} / preserve #{j}"), g, kind="inv-preserve")
             raise PathCut()
         # exit: invariant at n
+        for m, ls in listspecs.items():
+            fr.assign(m, SSeq(n, ls.spec_elem, "list", ls.tagname, tag=("listspec", ls.tagname)))
         ste = LoopSpec.State(ip, fr, n, n, S)
         for g in self._inv_terms(ste):
             path.assume(g)
@@ -294,6 +329,15 @@ class LoopSpec:
                 path.oblige(oid(f"{self.name} / preserve #{j}"), g, kind="inv-preserve")
             raise PathCut()
         ip.exec_block(st.orelse, fr)
+
+
+class ListSpec:
+    """Specification of a list built by one append per iteration: element k of the finished list is spec_elem(k);
+    equal(ip, appended_value, k) returns the z3 goals stating that the value appended in iteration k is that element."""
+    def __init__(self, spec_elem, equal, tagname="list"):
+        self.spec_elem = spec_elem
+        self.equal = equal
+        self.tagname = tagname
 
 
 class PathCut(Exception):
